@@ -368,13 +368,13 @@ void World::run_ctx(std::string const& ctx)
 }
 
 void World::on_handler(std::string const& h, boost::system::error_code const& ec
-	, std::string const& extra)
+	, std::string const& extra, bool run_ops)
 {
 	emit("H %s t=%lld ec=%s%s%s incall=%d", h.c_str(), (long long)now_ns(), ec_name(ec)
 		, extra.empty() ? "" : " ", extra.c_str(), api_depth > 0 ? 1 : 0);
 	// the wait's slot is known to be free again once its handler has run
 	for (auto& tp_ : timer_pending) if (tp_.second == h) { tp_.second.clear(); }
-	run_ctx(h);
+	if (run_ops) run_ctx(h);
 }
 
 std::function<void(boost::system::error_code const&)> World::make_h(std::string h)
@@ -387,6 +387,9 @@ void World::exec_op(std::string const& ctx, toks const& op)
 	if (op_kernel(ctx, op)) return;
 	if (op_inject(ctx, op)) return;
 	if (op_net(ctx, op)) return;
+	if (op_http(ctx, op)) return;
+	if (op_proxy(ctx, op)) return;
+	if (op_socks(ctx, op)) return;
 	emit("C %s %s => bad-op", ctx.c_str(), join(op, 0).c_str());
 }
 
@@ -518,15 +521,14 @@ int World::execute()
 
 World::~World()
 {
-	// the scenario ended with `Q`; packets the destructors still send (EOF of open connections,
-	// resets of connections queued at an acceptor) may pass probes: not part of the trace
-	g_teardown = true;
+	g_muted = true;
+	srv.reset();
 	net.reset();
 	timers.clear();
 	nodes.clear();
 	sim.reset();
 	cfg.reset();
-	g_teardown = false;
+	g_muted = false;
 	if (!pcap_path.empty())
 	{
 		// the capture is complete once the simulation (and its pcap object) is gone
